@@ -44,6 +44,7 @@ def gen_case(rng, index, tier):
     n_out = 0
     extra = []
     abyss = False
+    hostile = False
     for j in range(rng.randint(1, 4)):
         t = rng.choice(trashes)
         can = rng.choice(canaries)
@@ -63,6 +64,9 @@ def gen_case(rng, index, tier):
         if rng.random() < 0.02 and '\n' not in name:
             shape = 'abyss'
             abyss = True
+        elif rng.random() < 0.08:
+            shape = 'ro-tree'
+            hostile = True
         base = (L.home if t['home'] else t['volume'])
         loc = '/'.join(x for x in (base, 'docs', 'orig-' + name.replace('\n', '_')) if x)
         pv = trashgen.path_value(loc, t['volume'], t['home'])
@@ -71,6 +75,18 @@ def gen_case(rng, index, tier):
                'sub': True})
         if shape == 'link':
             L.add({'p': pay, 't': 'l', 'to': target})
+        elif shape == 'ro-tree':
+            # a read-only directory inside the trashed tree (the run is made
+            # without CAP_DAC_OVERRIDE): its children cannot be unlinked;
+            # whatever the purge does about that, it must not touch what the
+            # links inside point to
+            L.add({'p': pay, 't': 'd', 'm': 0o755})
+            L.add({'p': pay + '/ro', 't': 'd', 'm': rng.choice([0o555, 0o500])})
+            L.add({'p': pay + '/ro/out', 't': 'l', 'to': target if form != 'rel' else
+                   os.path.relpath('/' + can, '/' + pay + '/ro')})
+            L.add({'p': pay + '/ro/f', 't': 'f', 'c': 'read-only neighbour'})
+            L.add({'p': pay + '/locked', 't': 'd', 'm': 0o000})
+            L.add({'p': pay + '/locked/out', 't': 'l', 'to': '@/' + can})
         elif shape == 'abyss':
             # deeper than Python's recursion limit (a recursive remover gives
             # up, whatever takes over must not follow links either); outward
@@ -159,6 +175,8 @@ def gen_case(rng, index, tier):
     case['odd'] = odd
     case['via_link'] = via_link
     case['abyss'] = abyss
+    if hostile:
+        case['drop_caps'] = True
     case['entries'] = entries
     case['fseed'] = rng.getrandbits(30)
     case['nfaults'] = 2
